@@ -112,13 +112,14 @@ class CoopLock(CoopRLock):
 
 
 class Scheduler:
-    def __init__(self, bodies, prefix, filename, reduce=True, max_points=20000, expect=None):
+    def __init__(self, bodies, prefix, filename, reduce=True, max_points=5000, expect=None):
         self.n = len(bodies)
         self.bodies = bodies
         self.prefix = list(prefix)
         self.filename = filename
         self.reduce = reduce
         self.max_points = max_points
+        self.max_steps = 10 * max_points
         self.expect = expect            # idents of the parent run's points (prefix conformance)
         self.sems = [threading.Semaphore(0) for _ in range(self.n)]
         self.main_sem = threading.Semaphore(0)
@@ -178,6 +179,9 @@ class Scheduler:
     # -- called from the tracer / locks / thread bootstrap ---------------------------------------------
     def point(self, me, ident):
         self.steps += 1
+        if self.steps > self.max_steps:
+            # a thread that loops while it is the only enabled one never reaches a recorded choice point
+            self._abort('step budget exceeded (%d instructions in one execution)' % self.max_steps)
         to = self._choose(me, ident)
         self._switch(me, to)
 
